@@ -117,8 +117,14 @@ fn run_case(ctx: &Ctx, rng: &mut Rng, is128: bool, st: &mut St, case: u64) {
         }
     }
     if !known {
-        m.out(0xBFFE, 7);
-        current = 7;
+        // the very first write after power-on: any colour, black included
+        let c = if rng.chance(1, 3) { 0 } else { rng.below(8) as u8 };
+        m.out(0xBFFE, c);
+        current = c;
+        if m.emu.border_color() as u8 != c {
+            ctx.violation("border-color:not-last-write", &format!("border_color() is {} after the first OUT with colour {}", m.emu.border_color() as u8, c), jobj! {"case"=>case});
+            return;
+        }
     }
     m.run_frames(1);
     let nframes = 3 + rng.below(4) as usize;
